@@ -294,6 +294,18 @@ pub(crate) enum RecommendedState {
     S1(AnnounceMessage),
 }
 
+#[cfg(all(statime_verif, feature = "std"))]
+impl<A> Bmca<A> {
+    pub(crate) fn verif_dump(
+        &self,
+    ) -> std::vec::Vec<(
+        (crate::config::ClockIdentity, u16),
+        std::vec::Vec<(u16, Duration, u16)>,
+    )> {
+        self.foreign_master_list.verif_dump()
+    }
+}
+
 #[cfg(test)]
 mod tests {
     use super::*;
